@@ -21,7 +21,7 @@ def parse_out(line):
 class Check(DiffCheck):
     id = 'C15'
     coq_dirs = ['Base', 'C15']
-    coq_targets = ['C15/C15_Spec.vo', 'C15/C15_ProofsGeneric.vo', 'C15/C15_Proofs.vo']
+    coq_targets = ['C15/C15_Spec.vo', 'C15/C15_ProofsGeneric.vo', 'C15/C15_ProofsCover.vo', 'C15/C15_Proofs.vo', 'C15/C15_ProofsF15.vo']
     properties_v = 'C15/C15_Properties.v'
     extract_v = 'C15/C15_Extract.v'
     runner_ml = 'ocaml/C15_run.ml'
